@@ -180,7 +180,7 @@ pub fn check(c: &Case) -> CheckResult {
 
 pub fn strategy(ctx: &Ctx) -> BoxedStrategy<Case> {
     let ctx = ctx.clone();
-    (2i32..=10, 2i32..=10)
+    prop_oneof![24 => (2i32..=10, 2i32..=10), 1 => (257i32..=300, 2i32..=3), 1 => (2i32..=3, 257i32..=300)]
         .prop_flat_map(move |(w, h)| {
             let mut d = Domain::exact(w, h);
             d.layers = true;
